@@ -17,14 +17,15 @@ TRUSTED = [
 ]
 ASSUMPTIONS = [
     'Stage 1 schemas (wf_schema): single integer primary key, int/str attributes, unique scalars, many-to-one / one-to-many with Pony\'s default cascade_delete; '
-    'one-to-one, many-to-many, composite keys, inheritance are covered by the implementation-side oracle of the fuzzer only when added to the generator (not yet)',
+    'one-to-one and many-to-many relationships and composite keys (Stage 2) are covered by the implementation-side oracles only (half of the search histories use them; the Coq model and the '
+    'correspondence do not); composite primary keys and inheritance are not generated',
     'theorems hold for histories that reach no dirty site of the model (s_dirty = 0): sites 1-8 are known findings / legitimate partial failures of the code, '
     'sites 20-28 are assertion sites believed unreachable (a hit in the correspondence run is reported as a broken tie)',
     'C09 proper is explored, not proved; the theorems listed cover the transaction structure only',
     'steps the model declines (a deleted object used as a reference value, Entity.set mixing reference and collection arguments, insertion order that depends on '
     'Python set iteration) end the comparison of that history',
 ]
-RULE = ('seeded generator of (schema, op list): 1-3 entities, 1-3 scalar attributes each, 1-3 relationships, 10-40 ops, ~85 % valid ops; '
+RULE = ('seeded generator of (schema, op list): 1-3 entities, 1-3 scalar attributes each, 1-3 relationships (search: also many-to-many, one-to-one, composite_key), 10-40 ops, ~85 % valid ops; '
         'non-trivial = at least three successful mutating ops; distinct = distinct canonical (schema, ops)')
 
 
@@ -33,7 +34,7 @@ def search(ctx, deep): return chk.search(ctx, deep, ID)
 def replay(ctx, data): return chk.replay(ctx, data, ID)
 
 
-LEVEL_TEXT = ("Exploration plus partial proof, Stage 1 schema space. EXPLORED on every run: generated histories (creates, updates, deletes, reference and collection changes, flushes, commits, rollbacks, new sessions, ~15 % malformed ops) run on real Pony + SQLite; after every commit / rollback / db_session exit the rows read through a separate connection must equal the committed copy of an independent logical reference state (tools/session_spec.py), and objects that have to be saved must be queued. PROVED (Coq, every schema, every state / history of the executable session model): only commit / leaving the db_session change the committed database - every other operation, incl. rollback, failing operations and reads with their auto-flush, leaves it alone; a failing commit publishes nothing and the next session starts from the last commit; rollback discards database changes and the whole cache; what later sessions see after a rollback depends on the committed database only; a successful commit publishes exactly the flushed transaction. NOT proved: that the flushed transaction holds exactly the program's objects, values and links (no simulation proof between the session model and the reference state). Two defects are refuted by model witnesses (auto-generated id clash commits an orphan row; an assignment to a seed object is lost), a third (failed Entity.set leaves a created object out of the save queue: it is never inserted) is found on the implementation only, because the model stops at that dirty site.")
+LEVEL_TEXT = ("Exploration plus partial proof, Stage 1 schema space. EXPLORED on every run: generated histories (creates, updates, deletes, reference and collection changes, flushes, commits, rollbacks, new sessions, ~15 % malformed ops) run on real Pony + SQLite; after every commit / rollback / db_session exit the rows read through a separate connection must equal the committed copy of an independent logical reference state (tools/session_spec.py), and objects that have to be saved must be queued. PROVED (Coq, every schema, every state / history of the executable session model): only commit / leaving the db_session change the committed database - every other operation, incl. rollback, failing operations and reads with their auto-flush, leaves it alone; a failing commit publishes nothing and the next session starts from the last commit; rollback discards database changes and the whole cache; what later sessions see after a rollback depends on the committed database only; a successful commit publishes exactly the flushed transaction; a flush that succeeds leaves no object with status created / modified / marked_to_delete, provided every such object was queued at its _save_pos_ (that premise is checked on the implementation after every operation - oracle queue-not-queued - and not proved for all histories). NOT proved: that the flushed transaction holds exactly the program's objects, values and links (no simulation proof between the session model and the reference state). Two defects are refuted by model witnesses (auto-generated id clash commits an orphan row; an assignment to a seed object is lost), a third (failed Entity.set leaves a created object out of the save queue: it is never inserted) is found on the implementation only, because the model stops at that dirty site.")
 LEVEL_NOTE = ('Trusted: the reference state (small, but hand-written; it trusts which operations raised), the fuzzer harness, SQLite; for the theorems the Coq kernel and the hand-written session model tied by differential runs. Many-to-many link rows, composite keys, inheritance are outside the generator.')
 TECHNIQUE = 'exploration of generated operation histories on real Pony+SQLite against a logical reference state (property oracle, ddmin shrinking); Coq theorems over the executable session model for the transaction structure / read-your-own-write; vm_compute correspondence model vs implementation'
 DESIGN_REF = 'DESIGN.md section 5, C09 and Appendix A'
